@@ -80,3 +80,71 @@ func VerifC17_main_loop() {
 	}
 	verifReach("C17/main/end")
 }
+
+// E-output-write-error: record writers and the channel writer do not look at the result of their
+// writes to the buffered main output; a failed write is remembered by bufio and must come out of
+// Stream through the final Flush.  The writer stub writes a symbolic amount (nothing, a few bytes,
+// more than one bufio buffer in a single piece, or small-then-large) to the REAL bufio.Writer that
+// Stream created around an output whose Write fails from a symbolic call on; the underlying
+// handle records whether any Write failed.  Stream must return an error exactly when one did.
+type c17FailingOut struct {
+	failFrom int // index of the first Write call that fails
+	calls    int
+	failed   bool
+}
+
+func (o *c17FailingOut) Write(p []byte) (int, error) {
+	me := o.calls
+	o.calls++
+	if me >= o.failFrom {
+		o.failed = true
+		return 0, errors.New("no space left on device")
+	}
+	return len(p), nil
+}
+func (o *c17FailingOut) WriteString(s string) (int, error) { return o.Write([]byte(s)) } // as *os.File has
+func (o *c17FailingOut) Close() error                      { return nil }
+
+var c17WritePlan int
+
+func stubWriterWrites(writerChannel <-chan []*types.RecordAndContext, recordWriter output.IRecordWriter,
+	writerOptions *cli.TWriterOptions, doneChannel chan<- bool, dataProcessingErrorChannel chan<- error,
+	bufferedOutputStream *bufio.Writer, outputIsStdout bool) {
+	small := "a=1\n"
+	big := string(make([]byte, 5000)) // larger than bufio's 4096-byte buffer: handed straight to the output when the buffer is empty
+	switch c17WritePlan {
+	case 0:
+	case 1:
+		bufferedOutputStream.WriteString(small)
+	case 2:
+		bufferedOutputStream.WriteString(big)
+	case 3:
+		bufferedOutputStream.WriteString(small)
+		bufferedOutputStream.WriteString(big)
+	case 4:
+		bufferedOutputStream.WriteString(big)
+		bufferedOutputStream.WriteString(small)
+	case 5:
+		bufferedOutputStream.Write([]byte(big))
+	}
+	doneChannel <- true
+}
+
+//verif:opts engine-only
+func VerifC17_output_write_error_surfaces() {
+	verifReplace("github.com/johnkerl/miller/v6/pkg/input.Create", stubInputCreate)
+	verifReplace("github.com/johnkerl/miller/v6/pkg/output.Create", stubOutputCreate)
+	verifReplace("github.com/johnkerl/miller/v6/pkg/transformers.ChainTransformer", stubChain)
+	verifReplace("github.com/johnkerl/miller/v6/pkg/output.ChannelWriter", stubWriterWrites)
+	verifSpawnSync(true)
+	wantInputErr, wantDataErr = false, false
+	c17WritePlan = verifChoice("write_plan", 6)
+	out := &c17FailingOut{failFrom: verifChoice("fail_from_write", 4)} // 3: never (at most 3 writes reach the handle)
+	err := Stream([]string{"f"}, &cli.TOptions{}, nil, out, true)
+	if out.failed {
+		verifAssert(err != nil, "C17/output/failed-write-to-main-output-is-returned")
+	} else {
+		verifAssert(err == nil, "C17/output/no-spurious-error")
+	}
+	verifReach("C17/output/end")
+}
